@@ -452,6 +452,38 @@ func (w *c19World) authorize(ctx context.Context, client int, requestURI string)
 	return res
 }
 
+// hybridAuthorize: response_type "code token" (OpenID Connect hybrid flow): an access token is
+// issued at the authorization endpoint under the same request id as the code
+func (w *c19World) hybridAuthorize(ctx context.Context, client int) c19OpRes {
+	q := url.Values{}
+	q.Set("client_id", clientID(client))
+	q.Set("response_type", "code token")
+	q.Set("state", "state-0123456789")
+	q.Set("redirect_uri", clientRedirect(client))
+	q.Set("scope", w.scopes())
+	q.Set("nonce", "nonce-0123456789")
+	ar, err := w.prov.NewAuthorizeRequest(ctx, httptest.NewRequest("GET", "/auth?"+q.Encode(), nil))
+	if err != nil {
+		return c19OpRes{Err: errName(err)}
+	}
+	for _, s := range ar.GetRequestedScopes() {
+		ar.GrantScope(s)
+	}
+	resp, err := w.prov.NewAuthorizeResponse(ctx, ar, w.session())
+	if err != nil {
+		return c19OpRes{Err: errName(err)}
+	}
+	w.prov.WriteAuthorizeResponse(ctx, httptest.NewRecorder(), ar, resp)
+	res := c19OpRes{}
+	if code := resp.GetCode(); code != "" {
+		res.Minted = append(res.Minted, c19Tok{"code", code, tidOf(ctx)})
+	}
+	if at := resp.GetParameters().Get("access_token"); at != "" {
+		res.Minted = append(res.Minted, c19Tok{"access", at, tidOf(ctx)})
+	}
+	return res
+}
+
 func (w *c19World) tokenReq(ctx context.Context, form url.Values, client int) c19OpRes {
 	req := w.post("/token", form, client)
 	ar, err := w.prov.NewAccessRequest(ctx, req, w.session())
@@ -668,6 +700,18 @@ func c19Scenarios() []c19Scenario {
 		{"authorize|redeem", withCode(func(w *c19World, code string) []c19Op {
 			return []c19Op{opAuthorize(w), opRedeem(w, code)}
 		})},
+		{"hybrid:redeem|revoke-implicit-at", func(w *c19World) ([]c19Op, error) {
+			// two access tokens under one request id: the one issued with the code by the hybrid
+			// flow and the one issued when the code is redeemed
+			w.variant |= 2
+			a := w.hybridAuthorize(bg, 0)
+			w.minted = append(w.minted, a.Minted...)
+			code, at := tokOf(a, "code"), tokOf(a, "access")
+			if code == "" || at == "" {
+				return nil, fmt.Errorf("setup: hybrid authorization failed: %s", a.Err)
+			}
+			return []c19Op{opRedeem(w, code), opRevoke(w, at, "access_token")}, nil
+		}},
 		{"authorize-refused|authorize-refused", func(w *c19World) ([]c19Op, error) {
 			bad := c19Op{"authorize(refused)", func(ctx context.Context) c19OpRes {
 				q := url.Values{}
